@@ -48,6 +48,7 @@ func checkC18(c *core.Ctx) error {
 	c18SubDistributionCount(c)
 	c18RecursiveExport(c)
 	c18PresenceScans(c)
+	c18LineReader(c)
 	c18LikeNamed(c)
 	c18NamedKeys(c)
 	c18DecoderComplete(c)
